@@ -3,7 +3,7 @@
    State/CommitReopen.v.  All theorems are parametric in the hash function H; collision
    freedom is a hypothesis on the set [play] of tries involved, never on all inputs. *)
 From stdpp Require Import gmap.
-From GV Require Import Lib.Bytes Trie.Node Trie.Hash Trie.OpsProofs Trie.Canon State.Ref State.Journal State.Commit State.CommitProofs State.CommitReopen State.CommitSync State.CommitFin State.CommitBlock State.CommitChain.
+From GV Require Import Lib.Bytes Trie.Node Trie.Hash Trie.OpsProofs Trie.Canon State.Ref State.Journal State.Commit State.CommitProofs State.CommitReopen State.CommitSync State.CommitFin State.CommitBlock State.CommitChain State.CommitCode.
 
 (* Commit after IntermediateRoot returns the root IntermediateRoot returned (any rules
    at either call: the second Finalise finds an empty journal). *)
@@ -113,8 +113,7 @@ Print Assumptions C14_hashed_satisfiable.
    [addr_ok]/[slot_ok] = the universe of addresses/slots on which the secure keys are
    assumed collision free; [txs_ok] = the calls are inside the C13 guards (Journal.op_ok, no
    RIPEMD sticky touch) and the objects/slots dirty at each Finalise lie in that universe.
-   SetTxContext/Prepare (access list, transient storage: no effect on the committed state)
-   are not among the calls of a transaction body here. *)
+   SetTxContext/Prepare (access list, transient storage, tx context) may occur anywhere in a body. *)
 Theorem C14_sync_genesis :
   forall (H : list N -> list N), (forall x, forallb byteb (H x) = true) ->
   forall (addr_ok : addr -> Prop) (slot_ok : slot -> Prop) (al : list addr) (ks : list slot),
@@ -231,7 +230,7 @@ Print Assumptions C14_chain_inv.
    PROVED: exactly that, at getter level (RLP decode round trip of account and slot blobs, code
    store), for every block whose root changed, after any chain.  MISSING: code_guard is a
    hypothesis of the block (see above); for a block whose root did not change see
-   C14_empty_update_chain; SetTxContext/Prepare are not among the calls of a body. *)
+   C14_empty_update_chain. *)
 Theorem C14_reopen_reads_chain_partial :
   forall H addr_ok slot_ok play code_ok al ks, universe H addr_ok slot_ok play code_ok al ks ->
   forall p cs0 b cs cs1 root root' p',
@@ -300,6 +299,86 @@ Theorem C14_root_depends_only_on_state_chain :
     roota = rootb.
 Proof. exact @u_chain_root_depends_only_on_state. Qed.
 Print Assumptions C14_root_depends_only_on_state_chain.
+
+(* ------------------------------------------------------------------------------------
+   The same, with NO code-store guard: [chain'] / [blk_ok'] are [chain] / [blk_ok] without
+   code_guard (only "the codes of the final state's live objects are in the code universe").
+   That every non-empty code of a live object is in the code store or its object is marked
+   dirtyCode and is an update of StateDB.mutations is DERIVED: SetCode and the revert of a
+   codeChange both set dirtyCode, no other call changes a code (per call, per journal entry),
+   Finalise / finaliseAmsterdam / IntermediateRoot keep the marks, Commit writes the marked
+   codes, state.New finds them.  These are the headline theorems of C14. *)
+Theorem C14_state_new_sync :
+  forall H addr_ok slot_ok play code_ok al ks, universe H addr_ok slot_ok play code_ok al ks ->
+  forall p cs0, chain' H addr_ok slot_ok play code_ok al ks p cs0 ->
+    Sync H addr_ok slot_ok p cs0 /\ pdb_ok H play p /\ codes_ok H code_ok p /\
+    open H al ks p (c_root cs0) = COk cs0.
+Proof. exact @v_chain_inv. Qed.
+Print Assumptions C14_state_new_sync.
+
+(* reopen_reads: after ANY chain of blocks and one more block with a changed root, Commit returns
+   the IntermediateRoot root, state.New(root) succeeds and EVERY persistent getter of the reopened
+   state equals the finalised state's *)
+Theorem C14_reopen_reads :
+  forall H addr_ok slot_ok play code_ok al ks, universe H addr_ok slot_ok play code_ok al ks ->
+  forall p cs0 b cs cs1 root root' p',
+    chain' H addr_ok slot_ok play code_ok al ks p cs0 ->
+    blk_ok' H addr_ok slot_ok play code_ok p cs0 b cs cs1 root -> root <> c_root cs1 ->
+    commit H (b_crules b) p cs1 = COk (root', p') ->
+    root' = root /\ open H al ks p' root' = COk (reopened H al ks cs1 root') /\
+    (forall q, persistent_in slot_ok q -> query_c (reopened H al ks cs1 root') q = query_c cs1 q) /\
+    exists T, hashed H addr_ok slot_ok play p cs1 T /\ hash_root H T = Some root.
+Proof. exact @v_chain_reopen_reads. Qed.
+Print Assumptions C14_reopen_reads.
+
+(* ... and when the root did not change: nothing is written, state.New(root) is the state the block
+   started from, and its persistent getters equal the finalised state's *)
+Theorem C14_reopen_reads_empty_update :
+  forall H addr_ok slot_ok play code_ok al ks, universe H addr_ok slot_ok play code_ok al ks ->
+  forall p cs0 b cs cs1 root root' p',
+    chain' H addr_ok slot_ok play code_ok al ks p cs0 ->
+    blk_ok' H addr_ok slot_ok play code_ok p cs0 b cs cs1 root -> root = c_root cs1 ->
+    commit H (b_crules b) p cs1 = COk (root', p') ->
+    root' = root /\ p' = p /\ open H al ks p' root' = COk cs0 /\
+    (forall q, persistent_in slot_ok q -> query_c cs0 q = query_c cs1 q).
+Proof. exact @v_chain_empty_update. Qed.
+Print Assumptions C14_reopen_reads_empty_update.
+
+Theorem C14_destruct_recreate_clean :
+  forall H addr_ok slot_ok play code_ok al ks, universe H addr_ok slot_ok play code_ok al ks ->
+  forall p cs0 b cs cs1 root root' p' a o k,
+    chain' H addr_ok slot_ok play code_ok al ks p cs0 ->
+    blk_ok' H addr_ok slot_ok play code_ok p cs0 b cs cs1 root -> root <> c_root cs1 ->
+    commit H (b_crules b) p cs1 = COk (root', p') ->
+    a ∈ j_destruct (c_j cs1) -> j_objs (c_j cs1) !! a = Some o -> o_pending o !! k = None -> slot_ok k ->
+    query_c (reopened H al ks cs1 root') (QState a k) = AN 0%N /\
+    query_c (reopened H al ks cs1 root') (QCommitted a k) = AN 0%N.
+Proof. exact @v_chain_destruct_recreate_clean. Qed.
+Print Assumptions C14_destruct_recreate_clean.
+
+Theorem C14_root_depends_only_on_state :
+  forall H addr_ok slot_ok play code_ok al ks, universe H addr_ok slot_ok play code_ok al ks ->
+  forall pa csa0 ba csa csa1 roota pb csb0 bb csb csb1 rootb,
+    chain' H addr_ok slot_ok play code_ok al ks pa csa0 ->
+    blk_ok' H addr_ok slot_ok play code_ok pa csa0 ba csa csa1 roota ->
+    chain' H addr_ok slot_ok play code_ok al ks pb csb0 ->
+    blk_ok' H addr_ok slot_ok play code_ok pb csb0 bb csb csb1 rootb ->
+    (forall a, match j_objs (c_j csa1) !! a, j_objs (c_j csb1) !! a with
+          | Some o1, Some o2 => o_data o1 = o_data o2 /\
+                                forall k, slot_ok k -> committed (c_j csa1) a o1 k = committed (c_j csb1) a o2 k
+          | None, None => True
+          | _, _ => False
+          end) ->
+    roota = rootb.
+Proof. exact @v_chain_root_depends_only_on_state. Qed.
+Print Assumptions C14_root_depends_only_on_state.
+
+(* the bundled hypotheses are jointly satisfiable (a 32-byte toy hash, a one-address one-slot
+   universe); every chain starts with chain0', so the headline theorems are not vacuous *)
+Theorem C14_universe_satisfiable :
+  universe toyH32 (fun a => a = 1%N) (fun k => k = 0%N) (fun t => t = NEmpty) (fun c => c = 0%N) [1%N] [0%N].
+Proof. exact universe_example. Qed.
+Print Assumptions C14_universe_satisfiable.
 
 Example C14_nonvacuous : sample_check = true.
 Proof. vm_compute. reflexivity. Qed.
